@@ -60,6 +60,19 @@
                     instead): an explicit null for an optional *T parameter - and a null element of a
                     []*T / map[string]*T - is refused with -32602 and the handler never runs.
 
+   and one place where the code as it is does NOT refine the property is a switch of the FALSE = defective /
+   TRUE = repaired kind:
+
+     FixNullRequired   a JSON null for a REQUIRED parameter whose Go type is a pointer decodes to a nil
+                    pointer (for a pointer to a tagged struct too: nil skips validation) and the handler
+                    is called with it - but a required pointer parameter is one the handler may
+                    dereference, and every handler of rpc/v8..v10 does (block_id, transaction_hash,
+                    filter, request ...): {"method":"starknet_getBlockWithTxHashes","params":[null]}
+                    panics inside reflect.Call; over HTTP the connection is dropped without a response,
+                    inside a batch the pool swallows the panic and the entry gets no response at all.
+                    The property: null is "not present"; for a required parameter that is the
+                    missing-parameter case, -32602, and the handler is not invoked.
+
    Modelling decisions (stated, not hidden):
      * an id member that is null is read as no id - the code (Request.ID == nil) and JSON-RPC 1.0 treat it as a
        notification; 2.0 merely discourages it.  Not judged.
@@ -81,6 +94,7 @@ CONSTANTS
   FixNotif,
   FixNonRequest,
   FixLongWs,
+  FixNullRequired,  \* FALSE = the code as it is (see above)
   HasValidator,     \* the server was built WithValidator(...) (the node: rpcv10.Validator())
   NilPointerSkipsValidation   \* mechanism switch, TRUE = the code as it is (see above)
 
@@ -124,6 +138,9 @@ TypeClass == [t \in TypeNames |->
 (* the tokens that exist for a slot of type ty *)
 TokOf(ty) == {"p", "bad", "nul"} \cup (IF TypeClass[ty].tags THEN {"inv"} ELSE {})
                                  \cup (IF TypeClass[ty].elemnil THEN {"nin"} ELSE {})
+
+(* the Go kind of the parameter is Pointer *)
+IsPtr(ty) == ty \in {"pstruct", "pint", "pcustom"}
 
 (* reflect.New(T).Elem(): what an omitted optional parameter gives the handler *)
 ZeroOf(ty) == IF TypeClass[ty].null = "nil" THEN "nil" ELSE "zero"
@@ -181,12 +198,16 @@ DeclAccepts(ty, t) ==
 (* omitted and null reach the handler alike *)
 DeclArg(ty, t) == IF t \in {NoTok, "nul"} THEN ZeroOf(ty) ELSE t
 
-ParamsFit(md, p) ==
+ParamsFitLoose(md, p) ==
   /\ p.k # "scalar"
   /\ ~Superfluous(md, p)
   /\ \A i \in DOMAIN md.params :
        /\ Supplied(md, p, i) # NoTok => DeclAccepts(md.params[i].ty, Supplied(md, p, i))
        /\ ~md.params[i].opt => Supplied(md, p, i) # NoTok
+(* a required pointer parameter must be present: null is "not present" *)
+NullForRequired(md, p) ==
+  \E i \in DOMAIN md.params : ~md.params[i].opt /\ IsPtr(md.params[i].ty) /\ Supplied(md, p, i) = "nul"
+ParamsFit(md, p) == ParamsFitLoose(md, p) /\ ~NullForRequired(md, p)
 
 DeclArgs(md, p) == [i \in DOMAIN md.params |-> DeclArg(md.params[i].ty, Supplied(md, p, i))]
 
@@ -296,6 +317,7 @@ BuildArguments(md, p) ==
   ELSE IF p.k = "pos" THEN
     LET n == Len(p.pos) IN
     IF n < Required(md) \/ n > Total(md) THEN BuildFail
+    ELSE IF FixNullRequired /\ NullForRequired(md, p) THEN BuildFail           \* (repaired) "missing non-optional param"
     ELSE IF \E i \in 1..n : ParseParam(md.params[i].ty, p.pos[i]) = "err" THEN BuildFail
     ELSE BuildOK([i \in 1..Total(md) |-> IF i <= n THEN ParseParam(md.params[i].ty, p.pos[i])
                                          ELSE ZeroOf(md.params[i].ty)])    \* reflect.New(T).Elem(), not validated
@@ -304,7 +326,8 @@ BuildArguments(md, p) ==
         ty(i) == md.params[i].ty
         declared == {md.params[i].name : i \in DOMAIN md.params}
     IN
-    IF \E i \in DOMAIN md.params : (v(i) # NoTok /\ ParseParam(ty(i), v(i)) = "err")
+    IF FixNullRequired /\ NullForRequired(md, p) THEN BuildFail               \* (repaired) "missing non-optional param"
+    ELSE IF \E i \in DOMAIN md.params : (v(i) # NoTok /\ ParseParam(ty(i), v(i)) = "err")
                                       \/ (v(i) = NoTok /\ ~md.params[i].opt) THEN BuildFail
     ELSE IF \E n \in PNames \ declared : Named(p, n) # NoTok THEN BuildFail   \* "unexpected params"
     ELSE BuildOK([i \in 1..Total(md) |-> IF v(i) = NoTok THEN ZeroOf(ty(i)) ELSE ParseParam(ty(i), v(i))])
@@ -465,6 +488,10 @@ Processed == \/ top = "single"
 (* what the property allows for entry i in this context, with the two known deviations of the
    code as it is switched in (both switches TRUE: the pure property) *)
 AnsweredNotif(e) == ~FixNotif /\ IsNotification(e) /\ Class(e) \in {"nomethod", "badparams"}
+(* known deviation: the handler IS invoked (with a nil pointer) for a null given for a required pointer parameter *)
+NullReqDev(e) == /\ ~FixNullRequired /\ Class(e) = "badparams"
+                 /\ ParamsFitLoose(Methods[e.meth], e.params)
+AsIsInv(i, e) == Inv(i, e, DeclArgs(Methods[e.meth], e.params))
 ParseCodeForNonRequest(e) == ~FixNonRequest /\ top = "single" /\ DecodeErr(e)
 
 Silent(e) == DeclSilent(e) /\ ~AnsweredNotif(e)
@@ -472,6 +499,8 @@ RespOK(i, e, r) ==
   IF AnsweredNotif(e) THEN
     r = Resp(i, "error", IF Class(e) = "nomethod" THEN CodeNoMethod ELSE CodeParams, "null")
   ELSE IF ParseCodeForNonRequest(e) THEN r = Resp(i, "error", CodeParse, "null")
+  ELSE IF NullReqDev(e) THEN
+    r = IF AppErr(DeclArgs(Methods[e.meth], e.params)) THEN Resp(i, "error", CodeApp, "echo") ELSE Resp(i, "result", 0, "echo")
   ELSE DeclRespOK(i, e, r)
 
 TypeOK ==
@@ -522,8 +551,10 @@ PTopLevel ==
 PInvocations ==
   Done =>
     /\ \A i \in DOMAIN entries :
-         Count(log, LAMBDA v : v.e = i) = (IF Processed /\ Class(entries[i]) = "ok" THEN 1 ELSE 0)
-    /\ \A v \in Range(log) : v.e \in DOMAIN entries /\ v = DeclInv(v.e, entries[v.e])
+         Count(log, LAMBDA v : v.e = i) =
+           (IF Processed /\ (Class(entries[i]) = "ok" \/ NullReqDev(entries[i])) THEN 1 ELSE 0)
+    /\ \A v \in Range(log) : /\ v.e \in DOMAIN entries
+                              /\ v = IF NullReqDev(entries[v.e]) THEN AsIsInv(v.e, entries[v.e]) ELSE DeclInv(v.e, entries[v.e])
 
 (* while a batch is in flight nothing is lost or duplicated either *)
 PInFlight ==
@@ -553,9 +584,10 @@ PositionalEqNamed ==
 BuildAgreesWithDecl(P) ==
   \A m \in KnownMethods : \A p \in P :
     LET md == Methods[m] IN
+    LET fit == IF FixNullRequired THEN ParamsFit(md, p) ELSE ParamsFitLoose(md, p) IN
     p.k # "scalar" =>
-      /\ BuildArguments(md, p).ok <=> ParamsFit(md, p)
-      /\ ParamsFit(md, p) => BuildArguments(md, p).args = DeclArgs(md, p)
+      /\ BuildArguments(md, p).ok <=> fit
+      /\ fit => BuildArguments(md, p).args = DeclArgs(md, p)
 
 view == <<top, far, entries, phase, nxt, running, called, stage, out, shape, log>>
 =============================================================================
